@@ -131,6 +131,15 @@ def correspondence(ctx, model_ok=True):
     for kind in ("paren", "block", "vec", "fn", "interp", "unary", "if", "binop"):
         for depth in ((1, 7, 8, 9, 50, 200, 255, 256, 257, 1000) if ctx.thorough else (8, 9, 200, 256, 257)):
             cases.append(("nest:%s:%d" % (kind, depth), nesting(depth, kind)))
+    # the same constructs left OPEN (cut in the middle) and cut right after the innermost token: deep malformed input
+    for kind in ("paren", "block", "vec", "fn", "interp", "unary", "if", "binop"):
+        for depth in ((8, 60, 70, 200, 257, 1000) if ctx.thorough else (60, 70, 257)):
+            full = nesting(depth, kind)
+            cases.append(("open:%s:%d" % (kind, depth), full[:len(full) // 2]))
+            cases.append(("open3:%s:%d" % (kind, depth), full[:len(full) // 3]))
+    for ch in ("[", "(", "{", "-", "!", "[(", "{[", "fn f(", "f(", "a[", "\"${", "|| ", "#[", "x.y(", "1 + (", "try { ", "class A { fn m(self) { "):
+        for depth in (70, 300):
+            cases.append(("opench:%s:%d" % (ch, depth), ch * depth))
     cases += attribute_cases()
     lines = [vlib.case_line("c%d" % i, ["C:" + vlib.hx(src)], bytecode=1) for i, (_, src) in enumerate(cases)]
     res = vlib.run_real(ctx.runner, lines, timeout_per_batch=300, batch=400)
